@@ -99,7 +99,11 @@ def rule_regex(model):
             w = regexa.eda(pat, flags)
             size = regexa.nfa_size(pat, flags)
         except regexa.Unsupported as e:
-            raise AnalysisError(f'C06.R1: {where}: {e}')
+            if in_compile:
+                raise AnalysisError(f'C06.R1: {where}: {e}')
+            r.instance(where, repr(pat), f'not analysed ({e}); not used '
+                       'while compiling', compile_phase=False)
+            continue
         r.instance(where, repr(pat), 'EDA' if w else 'unambiguous-or-'
                    'polynomial', nfa_states=size,
                    compile_phase=in_compile)
